@@ -493,10 +493,14 @@ func r149(c *Ctx, r *R) {
 				}
 				g.Cond, g.Branch = u.X, !g.Branch
 			}
-			if !gNil(g, true, func(v ssa.Value) bool {
-				call, _ := originCallLocal(v)
-				return call != nil && callMatches(call.Common(), "raft.raftWrapper).WaitForUpdates")
-			}) {
+			// directly, or through a boolean helper (`!rw.caughtUp()`)
+			waitFailed := func(x Guard) bool {
+				return gNil(x, true, func(v ssa.Value) bool {
+					call, _ := originCallLocal(v)
+					return call != nil && callMatches(call.Common(), "raft.raftWrapper).WaitForUpdates")
+				})
+			}
+			if !establishesX(g, waitFailed, nil) {
 				continue
 			}
 			from := guardEdge(g)
